@@ -35,8 +35,8 @@ class C12(Prop):
         "empty password) through User/Md5Key/... and through the _fast socket classes and set_keys directly: a session or a documented exception, "
         "never PanicException. non-trivial = at least one derived key was compared or one malformed input tried; distinct = hash of the inputs"
     )
-    quick_runs = 700
-    thorough_runs = 12000
+    quick_runs = 6000
+    thorough_runs = 80000
 
     def families(self, tier):
         return [("session", 3), ("functions", 3), ("malformed", 3)]
@@ -47,8 +47,8 @@ class C12(Prop):
     def gen(self, rng, family, tier):
         if family == "session":
             level = rng.choice(["md5", "sha", "md5-des", "md5-aes", "sha-des", "sha-aes"])
-            kt = rng.choice(["password", "master", "localized"])
-            p = v3common.history_plan(rng, tier, [level], nsess=1, identity_changes=False, ktypes=[kt], long_run=rng.randint(1, 3))
+            # auth and priv key types are chosen independently (gen.user draws one per key)
+            p = v3common.history_plan(rng, tier, [level], nsess=1, identity_changes=False, ktypes=["password", "master", "localized"], long_run=rng.randint(1, 3))
             # replace the secret by one of a chosen length
             u = p["sessions"][0]["user"]
             eng = p["agent"]["engine_id"]
